@@ -67,7 +67,8 @@ def _single_atoms(seed):
         atoms.append(["prop", k, "exists", None, neg])
         for op in ("=", "<", "<=", ">", ">="):
             # '1_0', '1_000': digits joined by underscores are words, not integers
-            for val in ("2024-06-01", "10", "0", "007", "123456", a, b, "none", "x", "1_0", "1_000", "2024_06_01"):
+            for val in ("2024-06-01", "10", "0", "007", "123456", a, b, "none", "x", "1_0", "1_000", "2024_06_01",
+                        "2024", "1234", "2411", "12315"):
                 atoms.append(["prop", k, op, val, neg])
     for text in (a, b, f"two {a}", "o%b", "a_b", "x\\y", "it's" if False else "q\"q"):
         for quote in ("'", '"'):
